@@ -158,6 +158,8 @@ EntryStatus(R, O, e, S) ==
     [] e.k = "bool" ->
          CASE b = "has_node" -> St(e.v = (IF e.t = NoT THEN e.n \in NodesOf(O) ELSE e.n \in PresentNodes(S)))
            [] b = "is_empty" -> St(e.v = (FlatSet(O) = {}))
+           [] b = "has_successor"   -> St(e.v = (<<e.n, e.m>> \in S))
+           [] b = "has_predecessor" -> St(e.v = (<<e.m, e.n>> \in S))
            [] OTHER -> "fail"
     [] e.k = "degmap" ->
          LET keys == { x[1] : x \in ToSet(e.v) }
